@@ -4,4 +4,7 @@ EXTENDS PacketPool
 \* ptr 0 + stuffing (complete at once) | a pointer field running past the payload
 MCPayloads == { <<0, 0, 0, 1, 9>>, <<0, 0, 0, 2, 9>>, <<9>>, <<0, 255>>, <<7, 1>> }
 MCPATPIDS == { {32} }
+\* behaviours to replay: a sound one-program PAT is not needed (the model's Learn has no packet); payloads as above plus a section cut
+\* after its table id and after the first length byte (the reads of isPSIComplete that can fail)
+GenPayloads == { <<0, 0, 0, 1, 9>>, <<0, 0, 0, 2, 9>>, <<9>>, <<0, 255>>, <<7, 1>>, <<0, 0>>, <<0, 0, 0>>, <<1, 9>> }
 =============================================================================
